@@ -3,6 +3,7 @@ module verifh
 go 1.22.1
 
 require (
+	github.com/decred/dcrd/dcrec/secp256k1/v4 v4.3.0
 	github.com/ethereum/go-ethereum v1.14.3
 	github.com/glowlabs-org/gca-backend v0.0.0
 	github.com/glowlabs-org/threadgroup v0.0.0-20240512114128-232ca7c42d0d
